@@ -318,6 +318,151 @@ def hstack(tensors):
     return _cat(ts, 0 if ts[0].dim() == 1 else 1)
 
 
+def column_stack(tensors):
+    ts = [t.reshape(-1, 1) if t.dim() <= 1 else t for t in tensors]
+    return _cat(ts, 1)
+
+
+row_stack = vstack
+
+
+def split(t, split_size_or_sections, dim=0):
+    return t.split(split_size_or_sections, dim)
+
+
+def chunk(t, chunks, dim=0):
+    return t.chunk(chunks, dim)
+
+
+def unbind(t, dim=0):
+    return t.unbind(dim)
+
+
+def tensor_split(t, indices_or_sections, dim=0):
+    n = t.shape[dim]
+    if isinstance(indices_or_sections, builtins_int):
+        k = indices_or_sections
+        sizes = [n // k + (1 if i < n % k else 0) for i in range(k)]
+    else:
+        cuts = [0] + [builtins_min(builtins_int(i), n) for i in indices_or_sections] + [n]
+        sizes = [builtins_max(b - a, 0) for a, b in zip(cuts, cuts[1:])]
+    return t.split(sizes, dim)
+
+
+def masked_fill(t, mask, value):
+    return t.masked_fill(mask, value)
+
+
+def index_select(t, dim, index):
+    return t.index_select(dim, index)
+
+
+def cumsum(t, dim):
+    return t.cumsum(dim)
+
+
+def clamp_min(t, min):
+    return t.clamp(min=min)
+
+
+def clamp_max(t, max):
+    return t.clamp(max=max)
+
+
+def amax(t, dim=None, keepdim=False):
+    return t.amax(dim, keepdim)
+
+
+def amin(t, dim=None, keepdim=False):
+    return t.amin(dim, keepdim)
+
+
+def reciprocal(t):
+    return 1 / t
+
+
+def rsqrt(t):
+    return 1 / t.sqrt()
+
+
+def logical_and(a, b):
+    return a & b
+
+
+def logical_or(a, b):
+    return a | b
+
+
+def logical_not(a):
+    return ~a
+
+
+def eq(a, b):
+    return a == b
+
+
+def ne(a, b):
+    return a != b
+
+
+def lt(a, b):
+    return a < b
+
+
+def le(a, b):
+    return a <= b
+
+
+def gt(a, b):
+    return a > b
+
+
+def ge(a, b):
+    return a >= b
+
+
+def einsum(eq_, *ops):
+    """general einsum for explicit '->' equations over <= 3 operands (sum over products of entries)"""
+    if len(ops) == 1 and isinstance(ops[0], (list, tuple)):
+        ops = tuple(ops[0])
+    eq_ = eq_.replace(" ", "")
+    if "->" not in eq_ or "." in eq_:
+        raise ShimUnsupported(f"einsum equation {eq_!r}")
+    lhs, out = eq_.split("->")
+    subs = lhs.split(",")
+    if len(subs) != len(ops):
+        raise RuntimeError("einsum(): more operands were provided than specified in the equation")
+    dims = {}
+    for sub, t in zip(subs, ops):
+        if len(sub) != t.dim():
+            raise RuntimeError("einsum(): the number of subscripts in the equation does not match the number of dimensions of the operand")
+        for ch, n in zip(sub, t.shape):
+            if dims.setdefault(ch, n) != n:
+                raise RuntimeError("einsum(): operands do not broadcast with remapped shapes")
+    summed = [ch for ch in dims if ch not in out]
+    import itertools as _it
+    flats = [(t._flat(), t.shape) for t in ops]
+    def entry(fl_shape, sub, env):
+        fl, shape = fl_shape
+        k = 0
+        for ch, n in zip(sub, shape):
+            k = k * n + env[ch]
+        return fl[k]
+    res = []
+    for oidx in _it.product(*[range(dims[ch]) for ch in out]):
+        env = dict(zip(out, oidx))
+        tot = None
+        for sidx in _it.product(*[range(dims[ch]) for ch in summed]):
+            env.update(zip(summed, sidx))
+            term = None
+            for fs, sub in zip(flats, subs):
+                x = entry(fs, sub, env)
+                term = x if term is None else term * x
+            tot = term if tot is None else tot + term
+        res.append(tot if tot is not None else 0)
+    return Tensor._make(res, tuple(dims[ch] for ch in out), ops[0].dtype, ops[0].kind)
+
+
 def diag(t, diagonal=0):
     return _core._diag(t, diagonal)
 
